@@ -415,6 +415,68 @@ def _gen_job(job):
     return out
 
 
+def _two_libraries(first_yaml, first_out, second_yaml, second_out):
+    """Both libraries wrapped by one Python process, the way a build script calling Shroud twice does."""
+    for y, o in ((first_yaml, first_out), (second_yaml, second_out)):
+        try:
+            shroud_run._shroud_main(["--outdir", o, "--logdir", o, y])
+        except SystemExit as e:
+            if e.code not in (None, 0):
+                raise
+
+
+FIRST_LIBRARY = """library: Earlier
+cxx_header: earlier.hpp
+format:
+  C_prefix: ERL_
+options:
+  wrap_python: false
+  wrap_lua: false
+declarations:
+- decl: void fillInts(std::vector<int> &v +intent(out))
+- decl: void fillDoubles(std::vector<double> &v +intent(inout))
+- decl: std::vector<long> makeLongs()
+- decl: const std::string getName()
+- decl: int *table(int *n +intent(out)+hidden) +dimension(n)+deref(allocatable)
+- decl: class Thing
+  declarations:
+  - decl: Thing()
+  - decl: ~Thing()
+  - decl: int count() const
+"""
+
+
+def _second_job(job):
+    """The same comparison for a library that is the SECOND one wrapped by its process: every interface of its
+    module must still bind to a function its own C code defines, with matching arguments."""
+    idx, lib, options = job
+    work = tempfile.mkdtemp(prefix="vf04s_", dir=core.scratch_root())
+    out = dict(kind="second", idx=idx, problems=[], ninterfaces=0, nargs=0, sample=None, case=dict(second=True, lib=lib, options=options))
+    try:
+        gen = os.path.join(work, "out")
+        first = os.path.join(work, "first")
+        os.makedirs(gen)
+        os.makedirs(first)
+        open(os.path.join(work, "earlier.yaml"), "w").write(FIRST_LIBRARY)
+        open(os.path.join(work, "xlib.yaml"), "w").write(xlib.to_yaml(lib, options))
+        res = shroud_run.in_child(_two_libraries, (os.path.join(work, "earlier.yaml"), first, os.path.join(work, "xlib.yaml"), gen), cwd=work)
+        if res["status"] != "ok":
+            out["problems"].append(("shroud-stops", "Shroud stops on the second library of the process: %s %s"
+                                    % (res.get("exc_type"), (res.get("exc_msg") or "")[:400])))
+            return out
+        files0 = sorted(os.listdir(gen))
+        for fn, text in xlib.subject_sources(lib).items():
+            if fn.endswith((".h", ".hpp")):
+                open(os.path.join(gen, fn), "w").write(text)
+        res = analyse_dir(gen, files0, [gen], "c" if lib["language"] == "c" else "c++", [os.path.join(gen, lib["cheader"])])
+        out.update(res)
+    except iface.IfaceError as e:
+        raise core.HarnessError(str(e))
+    finally:
+        shutil.rmtree(work, ignore_errors=True)
+    return out
+
+
 @st.composite
 def struct_library(draw):
     """struct.rst: structs in the one-line form or as a declarations: list (struct.yaml Cstruct_ptr), members of
@@ -565,7 +627,14 @@ def run(ctx):
             for options in (None, {"F_CFI": True}):
                 # (std::vector with F_CFI: recorded finding of C05, excluded by construction)
                 jobs.append((len(jobs), xlib.without_vectors(lib)[0] if options else lib, options))
+    # function templates, every shape in turn
+    for k, shape in enumerate(xlib.TMPL_SHAPES):
+        for lib in smallgen.sample(xlib.library(lang="c++", for_fortran=True, with_template=shape, with_overloads=False,
+                                                with_class=False, nfunc=(0, 2)), ctx.seed + 500 + k, 3 if quick else 30):
+            jobs.append((len(jobs), lib, None))
     results = core.pool_map(_gen_job, jobs)
+    # the same libraries as the second library of their process (a build script that wraps two libraries)
+    results += core.pool_map(_second_job, [j for j in jobs if j[2] is None][:(12 if quick else 150)])
     results += core.pool_map(_struct_job, [(i,) + t for i, t in enumerate(smallgen.sample(struct_library(), ctx.seed + 31, 16 if quick else 200))])
     names = sorted(set(upstream.target_lists()["fortran"]))
     if quick:
@@ -622,6 +691,9 @@ def replay(ctx, rec):
         for key, note in out["problems"]:
             ctx.failure(key, c, observed=note, note=note)
         return
-    out = _corpus_job(c["corpus"]) if "corpus" in c else _gen_job((0, c["lib"], c["options"]))
+    if c.get("second"):
+        out = _second_job((0, c["lib"], c["options"]))
+    else:
+        out = _corpus_job(c["corpus"]) if "corpus" in c else _gen_job((0, c["lib"], c["options"]))
     for key, note in out["problems"]:
         ctx.failure(key, c, observed=note, note=note)
